@@ -407,6 +407,9 @@ def _configure_node(var, data, nodemap, model):
                 continue  # prefer (a) over (a /) when concept is missing
             edges.insert(0, ('/', target, epis))
         else:
+            established = nodemap.get(target)
+            if established is not None and established[0] == target:
+                push = False  # target already has its node; just refer to it
             if push:
                 nodemap[target] = (target, [])
                 target, _surprising = _configure_node(
